@@ -470,6 +470,19 @@ func runPipeline(src []byte, renderable bool, pal *[64]color.RGBA, calls []Call,
 	}
 	bs, err := e.Bytes()
 	res.enc = HexBytes(bs) + ErrStr(err)
+	// Encoders used from their zero value (no Reset): the blank graphic, then Reset to another graphic on the same
+	// Encoder, then another zero-value Encoder (round 5, C18-J: the zero-value buffer aliased a package-level header that
+	// the Reset wrote into; C08-I: zero-value Encoders shared the spare capacity of a package-level magic slice)
+	var e0, e1 encode.Encoder
+	b0, _ := e0.Bytes()
+	res.enc += " z0:" + HexBytes(b0)
+	e0.Reset(ivg.ViewBox{MinX: -1, MinY: -2, MaxX: 3, MaxY: 4}, *pal)
+	e1.SetCSel(uint8(len(src)))
+	e1.StartPath(0, 1, 2)
+	b0, _ = e0.Bytes()
+	e1.ClosePathEndPath()
+	b1, _ := e1.Bytes()
+	res.enc += " z0r:" + HexBytes(b0) + " z1:" + HexBytes(b1)
 	if renderable {
 		// real pixels only for graphics with moderate coordinates: x/image/vector subdivides curves
 		// with astronomically large control points into billions of lines
